@@ -1076,6 +1076,27 @@ def gen_sizes(rnd, plan, info, fs, heap, workers=1, n=260):
     return Program(plan, normalize(g.ops), heap=heap, workers=workers, fs=fs, tag="sizes")
 
 
+def gen_stress_bump(rnd, plan, info, fs, heap, workers=1, n=2500):
+    """C02/C03 under precise stress GC (`cfg stress` huge: every allocation takes the precise-stress slow path, no GC is
+    triggered): thousands of small objects with alignment > MIN_ALIGNMENT and varying offsets, so that whole
+    thread-local blocks are filled by padded allocations (added after seeded change C03b)."""
+    g = Gen(rnd, plan, info, fs, heap)
+    r = rnd
+    g.anchor()
+    sems = [s for s in g.sems if s in ("Default", "Immortal", "NonMoving")] or ["Default"]
+    for i in range(n):
+        if not info["collects"] and g.bytes > heap // 3:
+            break
+        sem = "Default" if r.random() < 0.8 else r.choice(sems)
+        al = r.choice([16, 16, 32, 64, 8])
+        off = r.choice([0, 8, 16, 24, 40, 56])
+        x = g.alloc(0, r.choice([0, 1]), r.choice([24, 32, 40, 64, 100, 200, 520]), sem, slot=i % 48, align=al, offset=off)
+        if x is None:
+            break
+    g.ops += ["snap", "stats"]
+    return with_stress(Program(plan, normalize(g.ops), heap=heap, workers=workers, fs=fs, tag="stress-bump"), 1 << 40)
+
+
 def gen_immortal(rnd, plan, info, fs, heap, workers=1):
     """C04: immortal-space objects (and every object under NoGC) survive being dropped; non-moving
     semantics and pinned objects keep their address across moving collections."""
@@ -1265,7 +1286,10 @@ def gen_cycles(rnd, plan, info, fs, heap, cycles=12, workers=1, warm=3, slack=C0
             # a failed request has asked for a GC: on ConcurrentImmix a concurrent cycle may be in flight, the next
             # user GC then only finishes it (what died after its snapshot is floating garbage until the GC after)
             g.ops += ["gc 0 1"]
-        g.ops += ["gc 0 1", "stats"]
+        # ConcurrentImmix (SATB): a concurrent cycle may be in flight when the roots are dropped (started by the
+        # allocation volume of this cycle); the user GC then only finishes it and what died after its snapshot floats
+        # until the next collection — the floor is judged after a second collection
+        g.ops += ["gc 0 1"] * (2 if plan == "ConcurrentImmix" else 1) + ["stats"]
     g.ops += ["snap"]
     return Program(plan, normalize(g.ops), heap=heap, workers=workers, fs=fs, tag="cycles",
                    mode={"c09": [warm, slack]})
@@ -1330,6 +1354,8 @@ def suite(name, seed, tier):
                             # bump allocator mis-accounted the alignment padding); appended after the classic programs
                             mk.append(lambda: with_stress(gen_sizes(rnd, plan, info, fs, heap_for(plan, rnd), w, n=140),
                                                           rnd.choice([4096, 32768, 1 << 18, 1 << 20])))
+                        if w == 1 and info["collects"]:
+                            mk.append(lambda: gen_stress_bump(rnd, plan, info, fs, heap_for(plan, rnd), w))
                         if plan in ("Immix", "GenImmix", "StickyImmix", "ConcurrentImmix") and info["collects"]:
                             # dense-lines (shared with C07): full Immix blocks with per-line mixed liveness; appended LAST so
                             # that the programs above keep their random streams
